@@ -57,16 +57,21 @@ impl std::task::Wake for Unpark {
     }
 }
 
-/// drives a future on the calling loom thread; parks on a loom `Notify` while it is pending
-fn block_on<F: Future>(f: F) -> F::Output {
+/// drives a future on the calling loom thread; parks on a loom `Notify` while it is pending.
+/// Returns the output and how often the task had to park.
+fn block_on<F: Future>(f: F) -> (F::Output, u32) {
     let unpark = Arc::new(Unpark(loom::sync::Notify::new()));
     let waker = Waker::from(unpark.clone());
     let mut cx = Context::from_waker(&waker);
     let mut f = Box::pin(f);
+    let mut parks = 0;
     loop {
         match f.as_mut().poll(&mut cx) {
-            Poll::Ready(v) => return v,
-            Poll::Pending => unpark.0.wait(),
+            Poll::Ready(v) => return (v, parks),
+            Poll::Pending => {
+                parks += 1;
+                unpark.0.wait()
+            }
         }
     }
 }
@@ -99,8 +104,11 @@ fn flow_scenario(name: &'static str, releases: &'static [u64], use_max: bool, as
         let granted = *releases.iter().max().unwrap();
         let mut next = 0u64;
         let mut got = Vec::new();
+        let mut parked = 0;
         for ask in asks {
-            let credits = block_on(state.acquire(request(*ask), &features)).expect("no stream error was set");
+            let (credits, parks) = block_on(state.acquire(request(*ask), &features));
+            let credits = credits.expect("no stream error was set");
+            parked += parks;
             assert!(credits.len > 0 && credits.len <= *ask, "acquire({}) returned {} bytes", ask, credits.len);
             assert_eq!(credits.offset.as_u64(), next, "credits are handed out contiguously");
             next += credits.len as u64;
@@ -109,7 +117,8 @@ fn flow_scenario(name: &'static str, releases: &'static [u64], use_max: bool, as
         }
         worker.join().unwrap();
         assert_eq!(state.stream_offset().as_u64(), next);
-        sup::note(format!("{:?}", got));
+        // outcome class: what was granted and whether the application had to wait for the worker
+        sup::note(format!("{:?} parked={}", got, parked.min(2)));
     });
 }
 
